@@ -1535,6 +1535,36 @@ def quad_merge_rule(ctx, b, rid):
     ctx.check(not probs, rid, 'T-BRANCHFX', b.name, 'the quadratic entries of both operands are not merged exactly: ' + '; '.join(probs), b.site(), merged=sorted(merged), loaded=sorted(loaded))
 
 
+def overwriting_loads(ctx, b, params=(1,)):
+    """ways in which terms of an operand can be LOST on their way to the result because they pass through a keyed
+    container filled without accumulation (two terms with the same key: the later one replaces the earlier one):
+      * a plain insert / the insert the normal form makes of `.map(..).collect::<Map>()` / `extend`, not guarded by a
+        lookup and not an `old + v` sum (accum_sites kind 'overwrite'),
+      * a whole iterator handed to collect / from_iter / extend of a map,
+      * dedup / dedup_by(_key) of a vector of terms.
+    An accumulating merge (`+=` through entry / get_mut, lookup-guarded insert) is not a loss."""
+    out = []
+    rs = ctx.S.backslice(b, [0])
+    loops = loops_of(ctx, b)
+    for x in accum_sites(ctx, b):
+        if x['kind'] != 'overwrite' or (x['map'] is not None and x['map'] not in rs.locals): continue
+        L = innermost_loop(loops, x['bb'])
+        src = L['it'].params if L is not None else ctx.S.slice_operand(b, x['val']).params
+        if set(params) & src: out.append((x['bb'], 'terms are inserted into a map without accumulation: terms with the same key overwrite each other'))
+    for c in b.calls:
+        if c.item in ('collect', 'from_iter', 'extend') and c.args:
+            if c.item == 'extend': into = b.locals[c.args[0]['pl']['l']] if c.args[0]['k'] in ('copy', 'move') else ''
+            else: into = b.locals[c.dst['l']]
+            if not re.match(r'(&mut )?std::collections::(BTreeMap|HashMap)<', into.strip()): continue
+            if c.item != 'extend' and c.dst['l'] not in rs.locals: continue
+            if set(params) & ctx.S.slice_operand(b, c.args[-1]).params:
+                out.append((c.bb, 'terms are collected into a map (%s): terms with the same key overwrite each other' % c.item))
+        elif c.item in ('dedup', 'dedup_by', 'dedup_by_key') and c.args and c.args[0]['k'] in ('copy', 'move'):
+            sl = ctx.S.slice_operand(b, c.args[0])
+            if set(params) & sl.params and (sl.locals & rs.locals): out.append((c.bb, 'terms are removed by %s' % c.item))
+    return out
+
+
 def constant_rule(ctx, b, rid):
     """constant of Linear + Linear is self.constant + rhs.constant — in the aggregate built here, or
     handed to a constructor that stores its parameter verbatim"""
@@ -1619,13 +1649,17 @@ def kernel_rules(ctx):
         if ty == 'v1::Linear':
             ok = ok and any(ctx.S.slice_operand(b, o).has_field('v1::Linear', 'constant') and innermost_loop(loops_of(ctx, b), bb) is None for bb, o in scale_sites(ctx, b))
         ctx.check(ok, R + '/%s*f64/scales' % short, 'T-BRANCHFX', b.name, 'coefficients are not multiplied by the scalar', b.site())
+        # every term of the operand yields one term of the result: no keyed container in between that merges by overwrite
+        # (a non-normalised operand may repeat an id / a monomial; x1 + x1 scaled by -1 is -2 x1, not -x1)
+        lost = overwriting_loads(ctx, b, (1,))
+        ctx.check(not lost, R + '/%s*f64/every-term-kept' % short, 'T-BRANCHFX', b.name, 'a scaled term can be lost: %s' % '; '.join(sorted({w for bb, w in lost})), b.site(lost[0][0]) if lost else b.site())
         # the only way around the scaling loop is a scalar that is exactly zero (a tiny non-zero scalar must still scale)
         zt, other = exact_zero_targets(b)
         via = {L['header'] for L in Ls} | zt
         okz = bool(Ls) and T.must_pass(b, 0, return_blocks(b), via)
         ctx.check(okz, R + '/%s*f64/only-exact-zero-shortcut' % short, 'T-GUARD', b.name,
                   'the function is returned without scaling under %s, not only for a scalar that is exactly 0' % (other or 'some condition'), b.site())
-    ctx.floor(R, 10)
+    ctx.floor(R, 13)
 
 
 # =============================================================================== C02.sorted
